@@ -87,6 +87,7 @@ type driver struct {
 	recent  []*ctlog.PendingLogEntry
 	stats   map[string]int
 	tsFn    func() int64
+	enum    int // history number (systematic scenarios)
 }
 
 func (d *driver) clock() int64 {
@@ -534,6 +535,7 @@ func main() {
 	nhist := flag.Int("n", 20, "number of histories")
 	outPath := flag.String("out", "", "history file")
 	only := flag.String("scenario", "", "run only this scenario kind")
+	enumBase := flag.Int("enumbase", 0, "first history number for systematic scenarios")
 	flag.Parse()
 	// LoadLog leaks its SQLite connections when it fails after opening the cache, and the sqlite
 	// package panics from a finalizer for every unclosed connection: run without GC (short-lived process).
@@ -554,6 +556,7 @@ func main() {
 			kind = *only
 		}
 		d := newDriver(hseed, filepath.Join(dir, fmt.Sprintf("h%d", h)))
+		d.enum = h + *enumBase
 		fmt.Fprintf(&all, "ev|reset|%d|%s\n", hseed, kind)
 		runScenario(d, kind)
 		d.checkDups()
